@@ -175,6 +175,15 @@ def check_stencil(case):
     tolk = 1e-12 + 16 * EPS * (abs(case.get("x0", 0.0)) + L) / dx      # round-off of the face coordinates themselves
     require(err[j] <= tolk, "kappa-stencil", "cell %d: rhs = %r, kappa(%g) stencil gives %r (n=%d, a=%g, %s)" % (j, float(r[j]), k, float(ref[j]), n, a, case["num"]["name"]))
     target(float(err[j]), "stencil-error")
+    if np.all(u == np.round(u)) and np.max(np.abs(u)) < 2 ** 52:
+        # "for all data": whole-number data held in an integer array (the natural way to write an impulse, np.eye(n, dtype=int)[j]) give the same operator
+        import flowdyn.field as ffield
+        fi = ffield.fdata(model, mesh, [u.astype(np.int64)])
+        ri = np.asarray(disc.rhs(fi)[0], dtype=float)
+        ei = np.abs(ri - ref) / scale
+        ji = int(np.argmax(ei))
+        require(ri.shape == (n,) and ei[ji] <= tolk, "kappa-stencil-integer-data", "cell %d: rhs of the same data held in an integer array = %r, kappa(%g) stencil gives %r (n=%d, a=%g, %s)"
+                % (ji, float(ri[ji]), k, float(ref[ji]), n, a, case["num"]["name"]))
     return dict(nontrivial=bool(np.any(u != u[0])), labels=["num:" + case["num"]["name"], "a>0" if a > 0 else "a<0", "n:%s" % (n if n <= 4 else ">4")])
 
 
